@@ -234,6 +234,35 @@ def verify_unit(repo, unit_dir, workdir, canary=True, rlimit=None):
     out['verified_count'] = pr['verified_count']
     out['smt'] = pr['smt']
     out['verus_wall'] = res['wall']
+    # Relaxed retry: compile errors inside functions whose body changed shape (position-based closure / loop / ghost
+    # annotations no longer fit). Those functions are regenerated WITHOUT their annotations; whatever then fails is
+    # reported as a `relaxed` failure, which bin/check turns into a violation only if a concrete witness fails too.
+    out['relaxed_fns'] = []
+    if pr['undecided'] and not pr['failures']:
+        bad_lines = [int(x) for u in pr['undecided'] for x in re.findall(r'@ line (\d+)', u)]
+        relax = sorted({f['label'] for ln in bad_lines for f in g.fns if f['gen_start'] <= ln <= f['body'][1]})
+        if relax and len(relax) <= 4:
+            try:
+                g2, text2 = extract.generate(repo, tpl, relaxed=relax)
+                path2 = os.path.join(workdir, unit + '_relaxed.rs')
+                open(path2, 'w').write(text2)
+                res2 = run_verus(path2, workdir, rlimit=rlimit)
+                pr2 = parse_verus(res2, g2.fns, text2.split('\n'))
+                if not pr2['undecided']:
+                    for f in pr2['failures']:
+                        if f['fn'] in relax:
+                            f['relaxed'] = True
+                    keep = [f for f in pr2['failures'] if f['fn'] in relax]
+                    if keep and len(keep) == len(pr2['failures']):
+                        out['relaxed_fns'] = relax
+                        out['undecided'] = [u for u in out['undecided'] if u not in pr['undecided']]
+                        out['undecided_original'] = pr['undecided']
+                        pr = pr2
+                        g = g2
+                        out['failures'] = keep
+                        out['fns'] = g2.fns
+            except (extract.Undecided, extract.L.LexError):
+                pass
     failed = {f['fn'] for f in pr['failures']}
     out['verified_fns'] = [f['label'] for f in g.fns if f['label'] not in failed] if not pr['undecided'] else []
     if canary and not out['undecided']:
